@@ -8,11 +8,11 @@
 //! s <dist> <seed> <n> <params…>            -> n draws (sample_n), state
 //! m <dist> <seed> <r> <c> <params…>        -> r c <r*c draws> state              (sample_matrix)
 //! mvn <seed> <n> <d> <mean d> <cr> <cc> <cov cr*cc>  -> rows cols <data> state   (DistributionND::sample_n)
-//! q <dist> <seed> <n> <K> <params…>        -> len nan nonint min max  h m (v c)*m | o K v*K
+//! q <dist> <seed> <n> <K> <params…>        -> len nan nonint min max  (h m (v c)*m | o K v*K) state
 //!        summary of n draws: histogram when there are at most 4096 distinct values, otherwise the K order
 //!        statistics of ranks 1 + floor(j (n-1) / (K-1)), j = 0..K-1 (1-based) of the sorted sample
 //! qmvn <seed> <n> <d> <mean d> <cov d*d> <m> (<w d> <c>)*m <K>
-//!        -> rows cols nan m K (v*K)*m : order statistics of w·x + c over the n rows x of sample_n(n)
+//!        -> rows cols nan m K (v*K)*m state : order statistics of w·x + c over the n rows x of sample_n(n)
 //!
 //! h <mode> <dist> <seed> <n> <init params…> <target params…>     -> as `s`, but the object is built with the init
 //!        parameters and brought to the target ones by mode u = `update(&[..])`, f = setters first-to-last,
@@ -418,7 +418,7 @@ fn step(_: &mut (), t: &mut Toks) -> R<String> {
                 let dist = build(&d);
                 alea::set_seed(seed);
                 let v = dist.sample_n(n);
-                ok(summary(v.to_vec(), k))
+                ok(with_state(summary(v.to_vec(), k)))
             }))
         }
         "c" | "cq" => {
@@ -437,7 +437,7 @@ fn step(_: &mut (), t: &mut Toks) -> R<String> {
                 alea::set_seed(seed);
                 let v = dist.sample_n(n);
                 if is_q {
-                    ok(summary(v.to_vec(), k))
+                    ok(with_state(summary(v.to_vec(), k)))
                 } else {
                     ok(with_state(show_fs(&v)))
                 }
@@ -509,7 +509,7 @@ fn step(_: &mut (), t: &mut Toks) -> R<String> {
                 alea::set_seed(seed);
                 let v = dist.sample_n(n);
                 if is_q {
-                    ok(summary(v.to_vec(), k))
+                    ok(with_state(summary(v.to_vec(), k)))
                 } else {
                     ok(with_state(show_fs(&v)))
                 }
@@ -554,7 +554,7 @@ fn step(_: &mut (), t: &mut Toks) -> R<String> {
                         s.push_str(&show_fs(&os));
                     }
                 }
-                ok(s)
+                ok(with_state(s))
             }))
         }
         _ => Err(BadOp),
